@@ -354,7 +354,7 @@ fn dump_function(
     out.push(format!(
         "LN {} {}",
         idx,
-        chunk.lines.iter().map(|l| l.to_string()).collect::<Vec<_>>().join(",")
+        (0..chunk.code.len()).map(|i| chunk.lines[i].to_string()).collect::<Vec<_>>().join(",")
     ));
     idx
 }
